@@ -7,6 +7,7 @@ C19.b  differential facts: for each feature X, the library functions reachable w
        off after erasing events that touch only X-owned state (rules/c19_diff.py).
 C19.d  [summary] the feature code stays inside feature-owned storage: the state ids the library itself feeds into the plan
        feature's bit arrays -- the invalid id of the root head included -- are below their capacity (shares C18.h).
+C19.e  [type] the configuration setters mean the same with and without the plan feature (every order of the setters).
 C19.c  amalgamation: include/ffsm2/machine.hpp is byte-identical to what tools/join.py produces from
        development/ (translation validation: generator run in a scratch copy + independent re-implementation).
 """
@@ -251,6 +252,12 @@ def run(run):
                     run.guard('state id indices', _c18.state_id_indices, run, F_, _eff.Effects(F_), 'C19.d')
                     facts.drop(F_)
             run.floor('C19.d', 5)
+            # the configuration setters mean the same whichever features are compiled in (every order of the setters, with and without
+            # the plan feature: a setter spelled once per feature mode can put its value into the wrong slot in one of them)
+            from gen import static_units as _su
+            run.guard('configuration setters', _su.report, run, 'C19.e', _su.config_unit('C19.e'))
+            run.guard('configuration setters', _su.report, run, 'C19.e', _su.config_unit('C19.e', plans=False))
+            run.floor('C19.e', 2)
         except AnalysisBroken as e:
             # a configuration that does not compile is already reported by the matrix (C19.a); the differential needs facts of that
             # configuration and cannot say more. Without a matrix failure a broken differential is a broken analysis.
